@@ -151,7 +151,7 @@ func (s *sched) pump(what string, cond func() bool) bool {
 	if s.broken {
 		return false
 	}
-	timeout := time.After(10 * time.Second)
+	timeout := time.After(30 * time.Second)
 	for !cond() {
 		select {
 		case p := <-s.arrive:
@@ -251,7 +251,7 @@ func (s *sched) spawn(k int, badURI bool) *task {
 }
 
 func (s *sched) waitBlocked(t *task) bool {
-	deadline := time.Now().Add(10 * time.Second)
+	deadline := time.Now().Add(30 * time.Second)
 	for {
 		st := goState(t.gid)
 		if st == "select" {
@@ -267,7 +267,7 @@ func (s *sched) waitBlocked(t *task) bool {
 }
 
 func (s *sched) waitGone(gid int64) {
-	deadline := time.Now().Add(10 * time.Second)
+	deadline := time.Now().Add(30 * time.Second)
 	for goState(gid) != "" {
 		if time.Now().After(deadline) {
 			s.fail("", "flight-goroutine-did-not-finish")
